@@ -106,7 +106,7 @@ class C20(Prop):
     quick_runs = 400
     thorough_runs = 12000
     claim = ("generated lifecycle histories (plain / reusable with resize / nested / broken by a crashing task / "
-             "kill_workers / idle time-outs) are run once and then k in {2,3,5} more times in the same simulated parent, "
+             "kill_workers, also of workers that have live descendants / idle time-outs) are run once and then k in {2,3,5} more times in the same simulated parent, "
              "each repetition followed by release and collection; exact counts from the kernel model - open descriptors "
              "of the parent, its live threads, its children including zombies, semaphore names it owns - must be the "
              "same after the last repetition as after the first")
